@@ -8,6 +8,7 @@ dest=$(grep -ohE "\b(ansi|client|config|feed|gemtext|history|hypertext|jtp|markd
 if [ -z "$dest" ]; then
   pkg=$(grep -m1 -oE "^package [a-z_]+" "$demo" | awk '{print $2}' | sed 's/_test$//')
   dest="$pkg/$base"
+  [ "$pkg" = main ] && dest="$base"
 fi
 dir=$(dirname "$dest")
 tests=$(grep -hoE "^func (Test[A-Za-z0-9_]+)" "$demo" | awk '{print $2}' | grep -v "^TestMain$" | paste -sd'|')
